@@ -24,6 +24,14 @@ def x86_queries(tier):
             cs = cases[i:i + chunk]
             qs.append(Query("x86/%s/c%d" % (k, i // chunk), R, dict(kernel=k, cases=cs), core=(i == 0), family="x86/" + KERNELS[k][0],
                             weight=sum(c[0] + 50 for c in cs)))
+    # crc32_iscsi_00/_01 dispatch on the number of 24-byte groups (1..128) of each <= 3072-byte block through a jump table, each entry
+    # with its own pair of folding constants (K_table): one length per group count, plus the block boundary
+    for k in ("crc32_iscsi_00", "crc32_iscsi_01"):
+        blk = [[24 * g + (g % 23), 0] for g in range(13, 129)] + [[n, 0] for n in (3071, 3072, 3073, 3100, 6150)] + [[24 * g + 5, 3] for g in (57, 101, 128)]
+        step = 8
+        for i in range(0, len(blk), step):
+            qs.append(Query("x86/%s/groups/c%d" % (k, i // step), R, dict(kernel=k, cases=blk[i:i + step]), core=False, family="x86/" + KERNELS[k][0],
+                            weight=sum(c[0] + 50 for c in blk[i:i + step])))
     for k in sorted(KERNELS):
         qs.append(Query("x86/%s/huge-len-probe" % k, "harness.C04.x86:crc_huge_probe", dict(kernel=k, lows=[0, 17, 300], off=1, budget=12000),
                         core=False, family="x86/huge-len-probe", weight=40))
